@@ -313,6 +313,199 @@ Section PassFinite.
   Qed.
 End PassFinite.
 
+(* ------------------------------------------------------------------ Part 5b: cells, and a finite pixel in every corner box *)
+(* corners (image coordinates) of the grid cell of row y (in the stripe that owns y) and of column c *)
+Definition glo_r g y := Z.min (st_ymin g (y / wy g) + (y - st_ymin g (y / wy g)) / sr g * sr g) (st_ymax g (y / wy g)).
+Definition ghi_r g y := Z.min (st_ymin g (y / wy g) + ((y - st_ymin g (y / wy g)) / sr g + 1) * sr g) (st_ymax g (y / wy g)).
+Definition glo_c g c := Z.min (c / sc g * sc g) (nc g).
+Definition ghi_c g c := Z.min ((c / sc g + 1) * sc g) (nc g).
+
+Lemma cell_r_facts g y : 0 < wy g -> 0 < sr g -> 0 <= y < nr g ->
+  0 <= y / wy g /\ st_ymin g (y / wy g) <= glo_r g y <= y /\ y < ghi_r g y <= st_ymax g (y / wy g)
+  /\ y - sr g < glo_r g y /\ ghi_r g y <= y + sr g /\ st_ymax g (y / wy g) <= nr g
+  /\ st_ymax g (y / wy g) <= st_ymin g (y / wy g) + wy g
+  /\ glo_r g y = st_ymin g (y / wy g) + (y - st_ymin g (y / wy g)) / sr g * sr g.
+Proof.
+  intros Hw Hs Hy. destruct (stripe_of_row g y Hw Hy) as [Hk [Hys Hym]]. unfold glo_r, ghi_r.
+  set (k := y / wy g) in *.
+  pose proof (Z.div_mod (y - st_ymin g k) (sr g) ltac:(lia)) as Hd.
+  pose proof (Z.mod_pos_bound (y - st_ymin g k) (sr g) Hs) as Hm.
+  set (i := (y - st_ymin g k) / sr g) in *.
+  assert (st_ymax g k <= st_ymin g k + wy g) by (unfold st_ymax, st_ymin; lia).
+  assert (0 <= i) by (apply Z.div_pos; lia). assert (0 <= i * sr g) by nia.
+  lia.
+Qed.
+
+Lemma cell_c_facts g c : 0 < sc g -> 0 <= c < nc g ->
+  0 <= glo_c g c <= c /\ c < ghi_c g c <= nc g /\ c - sc g < glo_c g c /\ ghi_c g c <= c + sc g
+  /\ glo_c g c = c / sc g * sc g.
+Proof.
+  intros Hs Hc. unfold glo_c, ghi_c.
+  pose proof (Z.div_mod c (sc g) ltac:(lia)) as Hd. pose proof (Z.mod_pos_bound c (sc g) Hs) as Hm.
+  assert (0 <= c / sc g) by (apply Z.div_pos; lia).
+  set (j := c / sc g) in *. nia.
+Qed.
+
+(* a pixel of the same cell has the same cell *)
+Lemma same_cell_r g y q : 0 < wy g -> 0 < sr g -> 0 <= y < nr g -> glo_r g y <= q < ghi_r g y ->
+  glo_r g q = glo_r g y /\ ghi_r g q = ghi_r g y /\ 0 <= q < nr g.
+Proof.
+  intros Hw Hs Hy Hq. destruct (cell_r_facts g y Hw Hs Hy) as (Hk & H1 & H2 & H3 & H4 & H5 & H6 & H7).
+  assert (Ek : q / wy g = y / wy g).
+  { symmetry. apply Z.div_unique with (r := q - wy g * (y / wy g)); [left | ring].
+    unfold st_ymin in *. lia. }
+  assert (Hu : ghi_r g y <= st_ymin g (y / wy g) + ((y - st_ymin g (y / wy g)) / sr g + 1) * sr g) by (unfold ghi_r; lia).
+  assert (Ei : (q - st_ymin g (y / wy g)) / sr g = (y - st_ymin g (y / wy g)) / sr g).
+  { symmetry. apply Z.div_unique with (r := q - st_ymin g (y / wy g) - sr g * ((y - st_ymin g (y / wy g)) / sr g)); [left | ring].
+    set (i := (y - st_ymin g (y / wy g)) / sr g) in *. lia. }
+  assert (0 <= st_ymin g (y / wy g)) by (unfold st_ymin; nia).
+  unfold glo_r, ghi_r in *. rewrite Ek, Ei. lia.
+Qed.
+
+Lemma same_cell_c g c q : 0 < sc g -> 0 <= c < nc g -> glo_c g c <= q < ghi_c g c ->
+  glo_c g q = glo_c g c /\ ghi_c g q = ghi_c g c /\ 0 <= q < nc g.
+Proof.
+  intros Hs Hc Hq. destruct (cell_c_facts g c Hs Hc) as (H1 & H2 & H3 & H4 & H5).
+  pose proof (Z.div_mod c (sc g) ltac:(lia)) as Hd. pose proof (Z.mod_pos_bound c (sc g) Hs) as Hm.
+  assert (Ej : q / sc g = c / sc g).
+  { symmetry. apply Z.div_unique with (r := q - sc g * (c / sc g)); [left | ring]. unfold ghi_c in Hq, H2. lia. }
+  unfold glo_c, ghi_c in *. rewrite Ej. lia.
+Qed.
+
+(* the cell of a pixel of the same cell, or of the previous pixel, stays within one step of the pixel *)
+Lemma cell_near_r g y q : 0 < wy g -> 0 < sr g -> 0 <= y < nr g -> 0 <= q < nr g ->
+  (glo_r g y <= q < ghi_r g y) \/ q = y - 1 ->
+  y - sr g <= glo_r g q /\ ghi_r g q <= y + sr g /\ - sr g <= q - y <= sr g.
+Proof.
+  intros Hw Hs Hy Hq [H|H].
+  - destruct (same_cell_r g y q Hw Hs Hy H) as (E1 & E2 & _).
+    destruct (cell_r_facts g y Hw Hs Hy) as (Hk & H1 & H2 & H3 & H4 & _). lia.
+  - destruct (cell_r_facts g q Hw Hs Hq) as (Hk & H1 & H2 & H3 & H4 & _). lia.
+Qed.
+
+Lemma cell_near_c g c q : 0 < sc g -> 0 <= c < nc g -> 0 <= q < nc g ->
+  (glo_c g c <= q < ghi_c g c) \/ q = c - 1 ->
+  c - sc g <= glo_c g q /\ ghi_c g q <= c + sc g /\ - sc g <= q - c <= sc g.
+Proof.
+  intros Hs Hc Hq [H|H].
+  - destruct (same_cell_c g c q Hs Hc H) as (E1 & E2 & _).
+    destruct (cell_c_facts g c Hs Hc) as (H1 & H2 & H3 & H4 & _). lia.
+  - destruct (cell_c_facts g q Hs Hq) as (H1 & H2 & H3 & H4 & _). lia.
+Qed.
+
+(* one axis: the data spans [m, x), the grid spans [a, e) inside it; each of the two nodes around y has, in its box
+   (python slice [max 0 (n - b/2), min (len - 1) (n + b/2)) in data coordinates), a pixel of the cell of y or the pixel y - 1 *)
+Lemma axis_witness m x a e step b y N : m <= a -> a <= y < e -> e <= x -> 2 <= x - m -> 0 < step -> 4 <= b ->
+  N = Z.min (a + (y - a) / step * step) e \/ N = Z.min (a + ((y - a) / step + 1) * step) e ->
+  exists q, Z.max 0 (N - m - b / 2) <= q - m < Z.min (x - m - 1) (N - m + b / 2) /\ m <= q < x
+            /\ (Z.min (a + (y - a) / step * step) e <= q < Z.min (a + ((y - a) / step + 1) * step) e \/ q = y - 1).
+Proof.
+  intros Hm Hy He Hx Hs Hb HN.
+  pose proof (Z.div_mod (y - a) step ltac:(lia)) as Hd. pose proof (Z.mod_pos_bound (y - a) step Hs) as Hmod.
+  assert (2 <= b / 2) by (apply Z.div_le_lower_bound; lia).
+  set (i := (y - a) / step) in *.
+  assert (0 <= i) by (apply Z.div_pos; lia). assert (0 <= i * step) by nia.
+  set (G0 := Z.min (a + i * step) e) in *. set (G1 := Z.min (a + (i + 1) * step) e) in *.
+  assert (HG : G0 <= y < G1 /\ a <= G0 /\ G1 <= e) by (unfold G0, G1; lia).
+  destruct HN as [-> | ->].
+  - destruct (Z_lt_dec G0 (x - 1)).
+    + exists G0. lia.
+    + exists (G0 - 1). lia.
+  - destruct (Z_lt_dec G1 x).
+    + exists (G1 - 1). lia.
+    + exists (x - 2). lia.
+Qed.
+
+
+Section PassFiniteNodes.
+  Variable K : carrier.
+  Variable est : list (V K) -> V K.
+
+  (* the pass is finite at (y, c) as soon as the box of each of the four nodes around the pixel holds one finite value *)
+  Lemma pass_finite_nodes g datak y c :
+    0 < wy g -> 0 < sr g -> 0 < sc g -> 0 <= y < nr g -> 0 <= c < nc g ->
+    (forall N M, N = glo_r g y \/ N = ghi_r g y -> M = glo_c g c \/ M = ghi_c g c ->
+       exists rr cc, box_r_min (N - st_drm g (y / wy g)) (br g) (st_dh g (y / wy g)) <= rr
+                       < box_r_max (N - st_drm g (y / wy g)) (br g) (st_dh g (y / wy g))
+                     /\ box_c_min M (bc g) (nc g) <= cc < box_c_max M (bc g) (nc g)
+                     /\ datak (y / wy g) rr cc <> None) ->
+    pass K est g datak y c <> None.
+  Proof.
+    intros Hw Hsr Hsc Hy Hc HN. unfold pass. rewrite memo2_eq, memo1_eq.
+    unfold stripe_map, interp_at, stripe_vals. rewrite !memo2_eq.
+    rewrite st_prow_eq, st_pcol_eq, st_rs_eq, st_re_eq, st_rstep_eq, st_cs_eq, st_ce_eq, st_cstep_eq.
+    rewrite Z.sub_0_r.
+    replace (y - st_drm g (y / wy g) - (st_ymin g (y / wy g) - st_drm g (y / wy g))) with (y - st_ymin g (y / wy g)) by lia.
+    assert (E1 : gnode (st_ymin g (y / wy g) - st_drm g (y / wy g)) (st_ymax g (y / wy g) - st_drm g (y / wy g)) (sr g)
+                       ((y - st_ymin g (y / wy g)) / sr g) = glo_r g y - st_drm g (y / wy g))
+      by (unfold gnode, glo_r; lia).
+    assert (E2 : gnode (st_ymin g (y / wy g) - st_drm g (y / wy g)) (st_ymax g (y / wy g) - st_drm g (y / wy g)) (sr g)
+                       ((y - st_ymin g (y / wy g)) / sr g + 1) = ghi_r g y - st_drm g (y / wy g))
+      by (unfold gnode, ghi_r; lia).
+    assert (E3 : gnode 0 (nc g) (sc g) (c / sc g) = glo_c g c) by (unfold gnode, glo_c; lia).
+    assert (E4 : gnode 0 (nc g) (sc g) (c / sc g + 1) = ghi_c g c) by (unfold gnode, ghi_c; lia).
+    rewrite E1, E2, E3, E4.
+    assert (NE : forall N M, N = glo_r g y \/ N = ghi_r g y -> M = glo_c g c \/ M = ghi_c g c ->
+               node_stat K est (boxvals K (datak (y / wy g)) (st_dh g (y / wy g)) (nc g) (br g) (bc g) (N - st_drm g (y / wy g)) M) <> None).
+    { intros N M HNr HMc. destruct (HN N M HNr HMc) as (rr & cc & R1 & C1 & D).
+      pose proof (boxvals_nonempty K (datak (y / wy g)) (st_dh g (y / wy g)) (nc g) (br g) (bc g) _ _ rr cc R1 C1 D) as Hne.
+      destruct (boxvals K (datak (y / wy g)) (st_dh g (y / wy g)) (nc g) (br g) (bc g) (N - st_drm g (y / wy g)) M);
+        [congruence | discriminate]. }
+    pose proof (NE _ _ (or_introl eq_refl) (or_introl eq_refl)) as Ha.
+    pose proof (NE _ _ (or_introl eq_refl) (or_intror eq_refl)) as Hb.
+    pose proof (NE _ _ (or_intror eq_refl) (or_introl eq_refl)) as Hc'.
+    pose proof (NE _ _ (or_intror eq_refl) (or_intror eq_refl)) as Hd.
+    destruct (node_stat K est (boxvals K _ _ _ _ _ (glo_r g y - _) (glo_c g c))); [|congruence].
+    destruct (node_stat K est (boxvals K _ _ _ _ _ (glo_r g y - _) (ghi_c g c))); [|congruence].
+    destruct (node_stat K est (boxvals K _ _ _ _ _ (ghi_r g y - _) (glo_c g c))); [|congruence].
+    destruct (node_stat K est (boxvals K _ _ _ _ _ (ghi_r g y - _) (ghi_c g c))); [|congruence].
+    discriminate.
+  Qed.
+End PassFiniteNodes.
+
+(* the two axis witnesses for the pixel (y, c) and one of its four nodes (N, M), in image coordinates *)
+Lemma node_witness g y c N M : (0 < wy g /\ 0 < sr g /\ 0 < sc g /\ 4 <= br g /\ 4 <= bc g) -> 2 <= nr g -> 2 <= nc g -> (0 <= y < nr g) -> (0 <= c < nc g) ->
+  N = glo_r g y \/ N = ghi_r g y -> M = glo_c g c \/ M = ghi_c g c ->
+  exists qr qc,
+    (box_r_min (N - st_drm g (y / wy g)) (br g) (st_dh g (y / wy g)) <= qr - st_drm g (y / wy g)
+       < box_r_max (N - st_drm g (y / wy g)) (br g) (st_dh g (y / wy g)))
+    /\ (box_c_min M (bc g) (nc g) <= qc < box_c_max M (bc g) (nc g))
+    /\ (0 <= qr - st_drm g (y / wy g) < st_dh g (y / wy g)) /\ (0 <= qr < nr g) /\ (0 <= qc < nc g)
+    /\ (glo_r g y - br g / 2 <= qr < ghi_r g y + br g / 2) /\ (glo_c g c - bc g / 2 <= qc < ghi_c g c + bc g / 2)
+    /\ ((glo_r g y <= qr < ghi_r g y) \/ qr = y - 1) /\ ((glo_c g c <= qc < ghi_c g c) \/ qc = c - 1).
+Proof.
+  intros (Hw & Hsr & Hsc & Hbr & Hbc) Hnr Hnc Hy Hc HN HM.
+  destruct (cell_r_facts g y Hw Hsr Hy) as (Hk & H1 & H2 & H3 & H4 & H5 & H6 & H7).
+  destruct (cell_c_facts g c Hsc Hc) as (C1 & C2 & C3 & C4 & C5).
+  set (k := y / wy g) in *.
+  assert (Hy0 : 0 <= st_ymin g k < st_ymax g k) by (unfold st_ymin in *; nia).
+  destruct (stripe_rows g k Hy0 H5 ltac:(lia)) as [Hd1 Hd2].
+  pose proof (stripe_rows_2 g k Hy0 H5 Hnr Hbr) as Hdh.
+  assert (Hb2r : 2 <= br g / 2) by (apply Z.div_le_lower_bound; lia).
+  assert (Hb2c : 2 <= bc g / 2) by (apply Z.div_le_lower_bound; lia).
+  assert (Hdh' : 2 <= st_drx g k - st_drm g k) by (unfold st_dh in Hdh; exact Hdh).
+  assert (HN' : N = Z.min (st_ymin g k + (y - st_ymin g k) / sr g * sr g) (st_ymax g k)
+                \/ N = Z.min (st_ymin g k + ((y - st_ymin g k) / sr g + 1) * sr g) (st_ymax g k))
+    by (unfold glo_r, ghi_r in HN; fold k in HN; exact HN).
+  destruct (axis_witness (st_drm g k) (st_drx g k) (st_ymin g k) (st_ymax g k) (sr g) (br g) y N
+              ltac:(lia) ltac:(lia) ltac:(lia) Hdh' Hsr Hbr HN') as (qr & R1 & R2 & R3).
+  assert (HM' : M = Z.min (0 + (c - 0) / sc g * sc g) (nc g) \/ M = Z.min (0 + ((c - 0) / sc g + 1) * sc g) (nc g))
+    by (unfold glo_c, ghi_c in HM; rewrite Z.sub_0_r, !Z.add_0_l; exact HM).
+  destruct (axis_witness 0 (nc g) 0 (nc g) (sc g) (bc g) c M
+              ltac:(lia) ltac:(lia) ltac:(lia) ltac:(lia) Hsc Hbc HM') as (qc & Q1 & Q2 & Q3).
+  rewrite Z.sub_0_r, !Z.add_0_l in Q3. rewrite !Z.sub_0_r in Q1.
+  fold (glo_c g c) in Q3. fold (ghi_c g c) in Q3.
+  assert (R3' : (glo_r g y <= qr < ghi_r g y) \/ qr = y - 1) by (unfold glo_r, ghi_r; fold k; exact R3).
+  assert (HNb : glo_r g y <= N <= ghi_r g y) by (clear - HN H1 H2; destruct HN; lia).
+  assert (HMb : glo_c g c <= M <= ghi_c g c) by (clear - HM C1 C2; destruct HM; lia).
+  exists qr, qc. rewrite box_r_min_spec, box_r_max_spec, box_c_min_spec, box_c_max_spec.
+  unfold st_dh. fold k.
+  split; [exact R1|]. split; [exact Q1|].
+  split; [clear - R2; lia|]. split; [clear - R2 Hd1 Hd2; lia|]. split; [exact Q2|].
+  split; [clear - R1 HNb Hb2r; lia|]. split; [clear - Q1 HMb Hb2c; lia|].
+  split; assumption.
+Qed.
+
 (* ------------------------------------------------------------------ Part 6: theorems for arbitrary statistics over R *)
 Open Scope R_scope.
 
@@ -512,45 +705,58 @@ Section Abstract.
     apply HI; unfold in_image, near, st_dh in *; lia.
   Qed.
 
-  Lemma far_finite_abstract g img y c : wf g -> suball g = true -> (2 <= nr g)%Z -> (2 <= nc g)%Z -> in_image g y c ->
-    ((forall y' c', in_image g y' c' -> near g 1 y c y' c' -> img y' c' <> None) -> out_bkg g img y c <> None)
-    /\ ((forall y' c', in_image g y' c' -> near g 2 y c y' c' -> img y' c' <> None) -> out_rms g img y c <> None).
+  (* sharper than bkg_raw_finite: only the rows / columns spanned by the four corner boxes of the cell of the pixel matter *)
+  Lemma bkg_raw_finite_cell g img y c : wf g -> (2 <= nr g)%Z -> (2 <= nc g)%Z -> in_image g y c ->
+    (forall y' c', in_image g y' c' -> (glo_r g y - br g / 2 <= y' < ghi_r g y + br g / 2)%Z ->
+                   (glo_c g c - bc g / 2 <= c' < ghi_c g c + bc g / 2)%Z -> img y' c' <> None) ->
+    bkg_raw g img y c <> None.
   Proof.
-    intros Hwf Hs Hnr Hnc Hin. pose proof Hwf as (Hw & Hsr & Hsc & Hbr & Hbc). pose proof Hin as [Hy Hc].
-    destruct (stripe_of_row g y Hw Hy) as [Hk [Hys Hym]].
-    destruct (stripe_rows g (y / wy g) ltac:(unfold st_ymin in *; nia) Hym ltac:(lia)) as [Hd1 Hd2].
+    intros Hwf Hnr Hnc [Hy Hc] HI. pose proof Hwf as (Hw & Hsr & Hsc & Hbr & Hbc). unfold BaneFilter.bkg_raw.
+    apply pass_finite_nodes; try assumption. intros N M HN HM.
+    destruct (node_witness g y c N M Hwf Hnr Hnc Hy Hc HN HM) as (qr & qc & B1 & B2 & L1 & I1 & I2 & S1 & S2 & _).
+    exists (qr - st_drm g (y / wy g))%Z, qc. split; [exact B1|]. split; [exact B2|].
+    unfold data1. replace (st_drm g (y / wy g) + (qr - st_drm g (y / wy g)))%Z with qr by lia.
+    apply HI; [split; assumption | exact S1 | exact S2].
+  Qed.
+
+  (* the property's radius, for BOTH maps: no blank pixel within box/2 + grid (per axis) => background and noise finite.
+     Noise: each of the four nodes around the pixel has in its box a pixel q of the pixel's own cell (or, when the last
+     cell of the image is one pixel wide, the previous pixel); the cell of q lies within one grid step of the pixel, so
+     the four boxes that decide the background of q lie within box/2 + grid of the pixel, and q itself is finite. *)
+  Lemma far_finite_abstract g img y c : wf g -> suball g = true -> (2 <= nr g)%Z -> (2 <= nc g)%Z -> in_image g y c ->
+    (forall y' c', in_image g y' c' -> near g 1 y c y' c' -> img y' c' <> None) ->
+    out_bkg g img y c <> None /\ out_rms g img y c <> None.
+  Proof.
+    intros Hwf Hs Hnr Hnc Hin HI. pose proof Hwf as (Hw & Hsr & Hsc & Hbr & Hbc). pose proof Hin as [Hy Hc].
     assert (Hb2r : (0 <= br g / 2)%Z) by (apply Z.div_pos; lia).
     assert (Hb2c : (0 <= bc g / 2)%Z) by (apply Z.div_pos; lia).
-    assert (Hmask : forall f, (1 <= f)%Z -> (forall y' c', in_image g y' c' -> near g f y c y' c' -> img y' c' <> None) ->
-                    bkg_raw g img y c <> None -> masked g img y c = false).
-    { intros f Hf HI Hb. unfold BaneFilter.masked, BaneFilter.sub_data. rewrite memo1_eq. unfold data2.
+    assert (Hb : bkg_raw g img y c <> None) by (apply bkg_raw_finite; assumption).
+    assert (Hm : masked g img y c = false).
+    { unfold BaneFilter.masked, BaneFilter.sub_data. rewrite memo1_eq. unfold data2.
       rewrite memo2_eq, st_mrow_eq, Hs. cbn [orb].
       replace (st_drm g (y / wy g) + (y - st_drm g (y / wy g)))%Z with y by lia.
-      assert (Hi : img y c <> None) by (apply HI; [exact Hin | unfold near; nia]).
+      assert (Hi : img y c <> None) by (apply HI; [exact Hin | unfold near; lia]).
       destruct (img y c); [|congruence]. destruct (bkg_raw g img y c); [reflexivity | congruence]. }
-    unfold BaneFilter.out_bkg, BaneFilter.out_rms. split.
-    - intros HI. pose proof (bkg_raw_finite g img y c Hwf Hnr Hnc Hin HI) as Hb.
-      rewrite (Hmask 1%Z ltac:(lia) HI Hb), andb_false_r. exact Hb.
-    - intros HI.
-      assert (Hb : bkg_raw g img y c <> None).
-      { apply bkg_raw_finite; try assumption. intros y' c' Hin' Hn. apply HI; [exact Hin'|]. unfold near in *. nia. }
-      rewrite (Hmask 2%Z ltac:(lia) HI Hb), andb_false_r. unfold BaneFilter.rms_raw.
-      apply pass_finite; try assumption. intros rr cc Hrr Hcc Hr1 Hc1.
-      unfold BaneFilter.sub_data. rewrite memo1_eq. unfold data2. rewrite memo2_eq, Hs. cbn [orb].
-      assert (Hin' : in_image g (st_drm g (y / wy g) + rr)%Z cc) by (unfold in_image, st_dh in *; lia).
-      assert (Hi : img (st_drm g (y / wy g) + rr)%Z cc <> None) by (apply HI; [exact Hin' | unfold near; lia]).
-      assert (Hbq : bkg_raw g img (st_drm g (y / wy g) + rr)%Z cc <> None).
-      { apply bkg_raw_finite; try assumption. intros y' c' Hin'' Hn. apply HI; [exact Hin''|]. unfold near in *. lia. }
-      destruct (img (st_drm g (y / wy g) + rr)%Z cc); [|congruence].
-      destruct (bkg_raw g img (st_drm g (y / wy g) + rr)%Z cc); [discriminate | congruence].
+    unfold BaneFilter.out_bkg, BaneFilter.out_rms. rewrite Hm, andb_false_r. split; [exact Hb|].
+    unfold BaneFilter.rms_raw. apply pass_finite_nodes; try assumption. intros N M HN HM.
+    destruct (node_witness g y c N M Hwf Hnr Hnc Hy Hc HN HM) as (qr & qc & B1 & B2 & L1 & I1 & I2 & S1 & S2 & W1 & W2).
+    exists (qr - st_drm g (y / wy g))%Z, qc. split; [exact B1|]. split; [exact B2|].
+    unfold BaneFilter.sub_data. rewrite memo1_eq. unfold data2. rewrite memo2_eq, Hs. cbn [orb].
+    replace (st_drm g (y / wy g) + (qr - st_drm g (y / wy g)))%Z with qr by lia.
+    destruct (cell_near_r g y qr Hw Hsr Hy I1 W1) as (N1 & N2 & N3).
+    destruct (cell_near_c g c qc Hsc Hc I2 W2) as (M1 & M2 & M3).
+    assert (Hi : img qr qc <> None) by (apply HI; [split; assumption | unfold near; lia]).
+    assert (Hbq : bkg_raw g img qr qc <> None).
+    { apply bkg_raw_finite_cell; try assumption; [split; assumption|].
+      intros y' c' Hin' Hr' Hc'. apply HI; [exact Hin'|]. unfold near. lia. }
+    destruct (img qr qc); [|congruence]. destruct (bkg_raw g img qr qc); [discriminate | congruence].
   Qed.
 
   Lemma no_blank_abstract g img y c : wf g -> suball g = true -> (2 <= nr g)%Z -> (2 <= nc g)%Z -> in_image g y c ->
     (forall y' c', in_image g y' c' -> img y' c' <> None) ->
     out_bkg g img y c <> None /\ out_rms g img y c <> None.
   Proof.
-    intros Hwf Hs Hnr Hnc Hin HI. destruct (far_finite_abstract g img y c Hwf Hs Hnr Hnc Hin) as [H1 H2].
-    split; [apply H1 | apply H2]; intros; apply HI; assumption.
+    intros Hwf Hs Hnr Hnc Hin HI. apply far_finite_abstract; try assumption. intros; apply HI; assumption.
   Qed.
 
   Lemma constant_abstract g img k y c : wf g -> suball g = true -> (2 <= nr g)%Z -> (2 <= nc g)%Z -> in_image g y c ->
@@ -642,8 +848,8 @@ Lemma bane_mask_nan g img y c : dm g = true -> img y c = None -> bane_bkg g img 
 Proof. apply mask_nan_abstract. Qed.
 
 Lemma bane_far_finite g img y c : real_geom g -> wf g -> (2 <= nr g)%Z -> (2 <= nc g)%Z -> in_image g y c ->
-  ((forall y' c', in_image g y' c' -> near g 1 y c y' c' -> img y' c' <> None) -> bane_bkg g img y c <> None)
-  /\ ((forall y' c', in_image g y' c' -> near g 2 y c y' c' -> img y' c' <> None) -> bane_rms g img y c <> None).
+  (forall y' c', in_image g y' c' -> near g 1 y c y' c' -> img y' c' <> None) ->
+  bane_bkg g img y c <> None /\ bane_rms g img y c <> None.
 Proof. intros Hg Hwf. apply far_finite_abstract; est_hyps. Qed.
 
 Lemma bane_no_blank g img y c : real_geom g -> wf g -> (2 <= nr g)%Z -> (2 <= nc g)%Z -> in_image g y c ->
